@@ -1,6 +1,7 @@
 package exec
 
 import (
+	"unsafe"
 	"fmt"
 	"go/token"
 	"go/types"
@@ -731,6 +732,10 @@ func (m *Machine) callBuiltin(caller *frame, pos token.Pos, fn *ssa.Builtin, arg
 		case *Value:
 			if n == 0 {
 				return Str{}
+			}
+			if p != nil {
+				// p points into a []Value backing array (element of a slice or array): take n consecutive cells
+				return mkStr(m.sliceBytes(Slice(unsafe.Slice(p, n))))
 			}
 		}
 	case "Slice":
